@@ -44,7 +44,7 @@ FIELDS = {
     "state::State.status": (("C07", "C13"), "engine status"),
     "state::State.stabilisation_num": (("C08",), "the clock var writes are stamped with"),
     "state::State.set_during_stabilisation": (("C08",), "deferred write queue"),
-    "state::State.dead_vars": (("C12",), "var cycle breaking queue"),
+    "state::State.dead_vars": (("C12", "C08"), "var cycle breaking queue"),
     "state::State.all_observers": (("C10", "C12"), "observer registry"),
     "state::State.new_observers": (("C10",), "observer queue"),
     "state::State.disallowed_observers": (("C10",), "observer queue"),
@@ -111,7 +111,7 @@ CALLEES = {
     "ErasedVariable>::set_var_stabilise_end": (("C08",), "deferred write application"),
     "var::Var::set_var_while_not_stabilising": (("C08",), "write application"),
     "var::Var::did_set_var_while_not_stabilising": (("C08",), "write application"),
-    "ErasedVariable>::break_rc_cycle": (("C12",), "cycle breaking"),
+    "ErasedVariable>::break_rc_cycle": (("C12", "C08"), "cycle breaking (must wait for the deferred write of a dropped var)"),
     "kind::expert::ExpertNode::make_stale": (("C14", "C16"), "expert staleness"),
     "kind::expert::ExpertNode::run_edge_callback": (("C14", "C16"), "edge callbacks"),
     "kind::expert::ExpertNode::before_main_computation": (("C14",), "expert recompute protocol"),
